@@ -19,7 +19,8 @@ EXPLANATION = (
     "never replaced - and, for symbol maps, with the substitution lemma by exhaustive valuation; function "
     "interpretations are compared with body[formals := rewritten actuals] (R7).  Exhaustive dispatch of "
     "both substituters over the operator universe (R4).  One instance asked again under another map "
-    "answers like a fresh instance (R6).")
+    "answers like a fresh instance (R6).  The public wrappers (pysmt.shortcuts.substitute, FNode.substitute) called with interpretations only - no map, None, "
+    "an empty map - apply the interpretations (part of R7); a result whose quantifier binds something that is not a variable is reported as ill-formed.")
 NOT_DECIDED = ["the substitution lemma itself (values under updated interpretations)",
                "capture by replacement terms (excluded by the property's proviso)"]
 
